@@ -470,6 +470,8 @@ def rule_definition(ctx, rule_env, rule_exports):
         elif order != want_order:
             ctx.report(rule_env, key + "/order", "the library's declarations are processed as %s, expected the import then the body forms in "
                        "order" % [(k, repr(x)) for k, x in order], where_of(f))
+        if rule_exports is None:
+            continue
         if scenario == "exports-bound":
             maps = [x for x in _maps(res)]
             got = sorted((k, id(v)) for m in maps[:1] for k, v in m.d.values()) if maps else None
